@@ -135,11 +135,181 @@ def rule_e(R, ctx):
              "far is emitted with the new attributes", cs.loc())
 
 
+def rule_f(R, ctx):
+    import re
+    from ylib.formula import Formulas, truth_check, fshow
+    Y = ctx.yrs
+    R.rule("C11.f", "R-GUARD decision table of map key changes (types::event_keys), per changed key with current entry `item` and `prev` = "
+                    "nearest left entry not added in this transaction; NEW = item.clock >= before_state(client), DI / DP = item / prev "
+                    "deleted in this transaction: Removed(prev value) iff NEW && DI && prev && DP; Updated(prev value, item value) iff "
+                    "NEW && !DI && prev && DP; Inserted(item value) iff NEW && !DI && !(prev && DP); Removed(item value) iff !NEW && DI — "
+                    "by truth table over the exact path formulas, and each reported value comes from the stated entry")
+    fn = Y.fn("yrs::types::event_keys")
+    v = FnView(fn)
+    fm = Formulas(fn, simp_deep)
+    fm.expand = False
+    H = None
+    for i, j, st in fn.stmts():
+        if st["rv"].get("bin") in ("Ge", "Lt") and term_has_call(v.terms.rvalue(st["rv"], 8), "re:before_state$"):
+            H = i
+    if H is None:
+        raise AnchorLost("comparison with before_state in event_keys")
+
+    def left_of(t):
+        return any(x[0] == "field" and x[1].endswith("Item.left") for x in walk(t))
+
+    def cls(k, t):
+        t = simp_deep(t) if isinstance(t, tuple) else t
+        if not isinstance(t, tuple):
+            return None
+        if t[0] == "bin" and t[1] in ("Ge", "Lt") and term_has_call(t, "re:before_state$"):
+            return "NEW" if t[1] == "Ge" else "!NEW"
+        if t[0] == "call" and t[1].endswith("TransactionMut::has_deleted"):
+            return "DP" if left_of(t) else "DI"
+        if t[0] == "call" and t[1].endswith("TransactionMut::has_added"):
+            return "PA" if left_of(t) else None
+        if k.endswith(" is Some") and left_of(t):
+            return "PS"
+        return None
+
+    ins = [cs for cs in fn.calls() if re.search(r"HashMap(<.*>)?::insert$", cs.name) and len(cs.args) == 3]
+    R.floor("C11.f", "key change insertions in event_keys", len(ins), 4)
+    want = {
+        ("Removed", True): lambda n: n["NEW"] and n["DI"] and n["PS"] and n["DP"],
+        ("Updated", True): lambda n: n["NEW"] and (not n["DI"]) and n["PS"] and n["DP"],
+        ("Inserted", False): lambda n: n["NEW"] and (not n["DI"]) and not (n["PS"] and n["DP"]),
+        ("Removed", False): lambda n: (not n["NEW"]) and n["DI"],
+    }
+    seen = set()
+    for cs, site in ordinal_sites(ins):
+        val = simp_deep(v.arg(cs, 2, 10))
+        kind = val[1].rsplit("::", 1)[-1] if val[0] == "agg" else "?"
+        first = val[2][0] if val[0] == "agg" and val[2] else ("nil",)
+        from_prev = left_of(first)
+        key = (kind, from_prev)
+        seen.add(key)
+        if key not in want:
+            R.ob("C11.f", fn, site, False, "unexpected change %s built from %s" % (kind, "prev" if from_prev else "item"), cs.loc())
+            continue
+        f = fm.reach_from(H, cs.bb)
+
+        def req(named, key=key):
+            n = {x: named.get(x, False) for x in ("NEW", "DI", "DP", "PS", "PA")}
+            if n["PS"] and n["PA"]:
+                return None  # the prev walk has not stopped yet
+            return bool(want[key](n))
+        ok, cex, keys = truth_check(f, cls, req, max_atoms=12)
+        vals_ok = True
+        if kind == "Updated" and val[0] == "agg" and len(val[2]) == 2:
+            vals_ok = left_of(val[2][0]) and not left_of(val[2][1])
+        R.ob("C11.f", fn, "%s(%s)" % (kind, "prev" if from_prev else "item"), ok and vals_ok,
+             "%s of the %s value under its table row" % (kind, "previous" if from_prev else "current") if ok and vals_ok else
+             "%s(%s) deviates from the key-change table: %s; values from the stated entries: %s; formula %s" %
+             (kind, "prev" if from_prev else "item", cex, vals_ok, fshow(f)[:300]), cs.loc())
+    R.ob("C11.f", fn, "all-rows", seen == set(want), "all four rows of the table are implemented: %s" % sorted(seen))
+
+
+def rule_g(R, ctx):
+    import re
+    from ylib.formula import Formulas, truth_check, fshow, f_or
+    Y = ctx.yrs
+    R.rule("C11.g", "R-GUARD decision table of sequence changes (types::event_change_set), per item of the walked list with D = is_deleted, "
+                    "TD / TA = deleted / added in this transaction: a Removed step (and `deleted.insert`) exactly under D && TD && !TA; an "
+                    "Added step (and `added.insert`) exactly under !D && TA; a Retain step exactly under !D && !TA; by truth table over "
+                    "the path formulas of one loop round; Removed / Retain grow by Item::len of that item, Added by its get_content()")
+    fn = Y.fn("yrs::types::event_change_set")
+    v = FnView(fn)
+    fm = Formulas(fn, simp_deep)
+    fm.expand = False
+    cfg = fn.cfg()
+    H = None
+    for cs in fn.calls_to("yrs::block::Item::is_deleted"):
+        H = cs.bb
+    if H is None:
+        raise AnchorLost("Item::is_deleted in event_change_set")
+
+    def cls(k, t):
+        t = simp_deep(t) if isinstance(t, tuple) else t
+        if not isinstance(t, tuple) or t[0] != "call":
+            return None
+        if t[1].endswith("Item::is_deleted"):
+            return "D"
+        if t[1].endswith("TransactionMut::has_deleted"):
+            return "TD"
+        if t[1].endswith("TransactionMut::has_added"):
+            return "TA"
+        return None
+    steps = {"Removed": [], "Added": [], "Retain": []}
+    for i, j, st in fn.stmts():
+        rv = st["rv"]
+        if "agg" in rv and str(rv["agg"].get("adt", "")).endswith("types::Change") and rv["agg"].get("variant") in steps and cfg.dominates(H, i):
+            steps[rv["agg"]["variant"]].append((i, st))
+    want = {"Removed": lambda n: n["D"] and n["TD"] and not n["TA"], "Added": lambda n: (not n["D"]) and n["TA"],
+            "Retain": lambda n: (not n["D"]) and not n["TA"]}
+    for kind in ("Removed", "Added", "Retain"):
+        bl = [i for i, st in steps[kind]]
+        if not bl:
+            R.ob("C11.g", fn, "step:" + kind, False, "no Change::%s is built in the walk" % kind)
+            continue
+        f = f_or(*[fm.reach_from(H, b) for b in bl])
+        # the `match last_op.take()` arms are bookkeeping of the run being extended: free of the decision
+        def cls2(k, t):
+            c = cls(k, t)
+            if c:
+                return c
+            return "RUN:" + k if (" is " in k or "==" in k) and ("last_op" in k or "Option::take" in k or "mem::take" in k or "take(" in k) else None
+
+        def req(named, kind=kind):
+            n = {x: named.get(x, False) for x in ("D", "TD", "TA")}
+            return bool(want[kind](n))
+        # evaluate over the three decision atoms only: quantify the bookkeeping atoms existentially
+        from ylib.formula import atoms_of, evaluate
+        ats = atoms_of(f)
+        dec = [k for k in ats if cls(k, ats[k])]
+        oth = [k for k in ats if not cls(k, ats[k])]
+        import itertools
+        ok = True
+        cex = None
+        names = {k: cls(k, ats[k]) for k in dec}
+        for vals in itertools.product([False, True], repeat=len(dec)):
+            env = dict(zip(dec, vals))
+            named = {}
+            cons = True
+            for k, val in env.items():
+                if names[k] in named and named[names[k]] != val:
+                    cons = False
+                named[names[k]] = val
+            if not cons:
+                continue
+            reach = False
+            for ovals in itertools.product([False, True], repeat=min(len(oth), 8)):
+                e2 = dict(env)
+                e2.update(dict(zip(oth[:8], ovals)))
+                for k in oth[8:]:
+                    e2[k] = False
+                if evaluate(f, e2):
+                    reach = True
+                    break
+            if reach != req(named):
+                ok = False
+                cex = {"decision": named, "reachable": reach, "required": req(named)}
+                break
+        R.ob("C11.g", fn, "step:" + kind, ok, "Change::%s is built exactly under its table row" % kind if ok else
+             "Change::%s deviates from the sequence-change table: %s; formula %s" % (kind, cex, fshow(f)[:300]))
+    # set bookkeeping follows the same rows
+    for setname, kind in (("deleted", "Removed"), ("added", "Added")):
+        ins = [cs for cs in fn.calls() if re.search(r"HashSet(<.*>)?::insert$", cs.name) and fn.local_name(mir_root(fn, cs.args[0])[1] if mir_root(fn, cs.args[0])[0] == "local" else -1) == setname]
+        okk = bool(ins) and all(any(cfg.dominates(cs.bb, b) or cfg.dominates(b, cs.bb) for b, _ in steps[kind]) for cs in ins)
+        R.ob("C11.g", fn, "set:" + setname, okk, "`%s.insert(item.id)` sits in the %s branch" % (setname, kind))
+
+
 def check(ctx, R):
     R.run("C11.a", rule_a, ctx)
     R.run("C11.b", rule_b, ctx)
     R.run("C11.d", rule_d, ctx)
     R.run("C11.e", rule_e, ctx)
+    R.run("C11.f", rule_f, ctx)
+    R.run("C11.g", rule_g, ctx)
     from . import preds
     R.run("C11.p", lambda R, c: preds.rule(R, c, "C11.p", ["has_added", "has_deleted"]), ctx)
     if ctx.tier == "thorough":
